@@ -504,10 +504,30 @@ def hash_(x):
         return lift(z3.If(x.t == -1, z3.IntVal(-2), x.t))
     if tx is SBool:
         return x._asint()
-    if tx is tuple and _obj_symbolic(x, 0):
+    if tx is tuple:
+        sym_t = _obj_symbolic(x, 0)
+        if not sym_t:
+            try:
+                return _real["hash"](x)
+            except TypeError:
+                sym_t = True      # a symbolic field deeper than the look-ahead
         parts = [hash_(e) for e in x]
+        if not any(is_sym(p) for p in parts):
+            return _real["hash"](tuple(parts)) if not sym_t else _real["hash"](x)
         f = z3.Function(f"tuplehash{len(parts)}", *([z3.IntSort()] * (len(parts) + 1)))
-        return lift(f(*[to_term(p) for p in parts]))
+        args = [to_term(p) for p in parts]
+        app = f(*args)
+        # A-hash: no accidental collision between tuple hashes (equal hashes <=> equal component hashes).  Hashes of
+        # integers stay exact (hash(n) = n, hash(-1) = -2), so arithmetic coincidences such as
+        # hash(0)+hash(3) == hash(1)+hash(2) are still found.
+        c = ctx()
+        seen = c.__dict__.setdefault("tuplehash_apps", {}).setdefault(len(parts), [])
+        key = app.sexpr()
+        if all(k != key for k, _, _ in seen):
+            for _, app2, args2 in seen:
+                c.axiom(z3.Implies(app == app2, z3.And(*[a == b for a, b in _real["zip"](args, args2)])))
+            seen.append((key, app, args))
+        return lift(app)
     if isi(x, Seq):
         # bag abstraction (S7): the hash of a child list is a function of the bag of its elements' hashes
         mix = z3.Function("hashmix", z3.IntSort(), z3.IntSort())
@@ -524,7 +544,13 @@ def hash_(x):
     h = getattr(tx, "__hash__", None)
     if h is not None and _obj_symbolic(x, 0) and tx.__module__ not in ("builtins",):
         return h(x)  # run the class's own __hash__ (from repository source) on symbolic fields
-    return _real["hash"](x)
+    try:
+        return _real["hash"](x)
+    except TypeError:
+        # a symbolic field deeper than the look-ahead made the class's own __hash__ return a symbolic integer
+        if h is not None and tx.__module__ not in ("builtins",):
+            return h(x)
+        raise
 
 
 def next_(it, *default):
